@@ -189,7 +189,7 @@ where
         cases: cfg.cases,
         failure_persistence: None,
         // (a long_session case is thousands of searches: a dozen shrink steps at most)
-        max_shrink_iters: if cfg.part == "long_session" { 12 } else if cfg.expensive { 200 } else { 4096 },
+        max_shrink_iters: if cfg.part == "long_session" { 12 } else if cfg.expensive { 60 } else { 4096 },
         max_global_rejects: 1,
         max_local_rejects: 65_536,
         source_file: None,
